@@ -50,6 +50,23 @@ def typed_option_bases(quick):
     return out if not quick else out
 
 
+def ppi_bases():
+    """PPI captures of 802.11 frames whose field area is cut at every interesting length of the 802.11-Common field (4-octet field
+    header + 20 octets; its flags word - bit 0: the frame ends in an FCS - sits at offset 12 of the field area), with and without
+    the FCS flag and the 4 FCS octets."""
+    import struct
+    m1, m2, m3 = bytes([0, 0x11, 0x22, 0x33, 0x44, 0x55]), bytes([0x66, 0x77, 0x88, 0x99, 0xaa, 0xbb]), bytes([2, 0, 0, 0, 0, 1])
+    dot11 = bytes([0x08, 0x02, 0x2c, 0x00]) + m1 + m2 + m3 + bytes([0x10, 0x00]) + bytes([0xaa, 0xaa, 3, 0, 0, 0, 0x99, 0x99]) + bytes([1, 2, 3, 4, 5, 6])
+    out = []
+    for flen in (0, 4, 8, 11, 12, 13, 14, 16, 24):
+        for fcs in (0, 1):
+            field = bytearray(struct.pack("<HH", 2, 20) + bytes(8) + struct.pack("<HHHHBB", fcs, 2, 2412, 0x00a0, 0xd8, 0xa0) + bytes(2))
+            hdr = bytes([0, 0]) + struct.pack("<H", 8 + flen) + struct.pack("<I", 105)
+            b = hdr + bytes(field[:flen]) + dot11 + (bytes([0xde, 0xad, 0xbe, 0xef]) if fcs else b"")
+            out.append({"raw": list(b), "name": "ppi_dot11_f%d_fcs%d" % (flen, fcs), "special": "ppi"})
+    return out
+
+
 def scenarios(rng, quick, option_shapes=False):
     """(scenarios, bases, chunks, generator results).  option_shapes: instead of a random sample of WireGen shapes take one shape
     per (network-layer option shape, transport option shape) - the packets whose re-serialisation has something to compute."""
@@ -64,6 +81,7 @@ def scenarios(rng, quick, option_shapes=False):
         us[vlib.canon_hash(s)] = s
     shapes = [s for s in sorted(us.values(), key=vlib.canon_hash) if s["pay"] not in ("huge", "big")]
     bases = [{"cat": i} for i in range(55)] + [{"sample": "ppi"}, {"sample": "pktap"}]
+    bases += ppi_bases()
     gold = pyenc.goldens(rng)
     bases += [{"raw": list(b), "name": n} for n, b in gold if n.startswith("dns_")]
     bases += [{"raw": list(b), "name": n} for n, b in gold if not n.startswith("dns_")][:: (4 if quick else 1)]
